@@ -79,18 +79,40 @@ def _release_extras(lz, c):
         lz.L().lzma_index_end(c.index_out, None)
     c.index_out = None
 
-def record_history(lz, coders, name, rng, out, ncalls, prev=None):
+def getters(lz, c):
+    """What the informational functions say about a handle (none of them changes it: the limit is set to itself)."""
+    import ctypes as C
+    L = lz.L(); sp = C.byref(c.strm)
+    # (lzma_get_check is documented as undefined except right after LZMA_NO_CHECK / UNSUPPORTED_CHECK / GET_CHECK)
+    mu = L.lzma_memusage(sp); ml = L.lzma_memlimit_get(sp)
+    mset = L.lzma_memlimit_set(sp, ml if ml else 1 << 30)
+    pin = C.c_uint64(0); pout = C.c_uint64(0)
+    L.lzma_get_progress(sp, C.byref(pin), C.byref(pout))
+    return dict(memusage=mu, memlimit=ml, memlimit_set=lz.retname(mset), progress=[pin.value, pout.value])
+
+def record_history(lz, coders, name, rng, out, ncalls, prev=None, script=None, sample_kw=None):
     """Append events of one random call history on coder `name` to list `out`.
-    prev: a Coder whose handle is re-initialised with this constructor WITHOUT lzma_end() (event Reinit)."""
+    prev: a Coder whose handle is re-initialised with this constructor WITHOUT lzma_end() (event Reinit).
+    script: amounts of new input for the first calls (LZMA_RUN, all output space), then random as usual."""
     ev = {"e": "Reset", "coder": coders.tlaname(name), "inited": True, "impl": name}
     mode = rng.random()
     if prev is not None:
         old_index_out = getattr(prev, "index_out", None)
         old_keep = getattr(prev, "keep_index", None)
         prev.index_out = None; prev.keep_index = None
+        st0 = rng.getstate()
         c, data, r = coders.make_with_sample(name, rng, coder=prev)
         if r != lz.OK:
             raise MachineryError("constructor %s failed with %s on a reused handle" % (name, r))
+        # A re-initialised handle is indistinguishable from a fresh one given to the same constructor with the same
+        # arguments (Reinit = Init in the model): compare what the informational functions report
+        st1 = rng.getstate(); rng.setstate(st0)
+        f, _, rf = coders.make_with_sample(name, rng)
+        assert rf == lz.OK and rng.getstate() == st1
+        gre, gfr = getters(lz, c), getters(lz, f)
+        f.end(); _release_extras(lz, f)
+        ev["fresh_eq"] = gre == gfr
+        ev["getters"] = gre; ev["getters_fresh"] = gfr
         # the previous coder was freed by the re-initialisation; release what the caller owned
         if old_keep:
             lz.L().lzma_index_end(old_keep, None)
@@ -101,7 +123,7 @@ def record_history(lz, coders, name, rng, out, ncalls, prev=None):
         # use before initialisation
         c = lz.Coder(); data = b"abc"; ev["inited"] = False; ev["coder"] = "none"
     else:
-        c, data, r = coders.make_with_sample(name, rng)
+        c, data, r = coders.make_with_sample(name, rng, **(sample_kw or {}))
         if r != lz.OK:
             raise MachineryError("constructor %s failed with %s" % (name, r))
     out.append(ev)
@@ -147,6 +169,8 @@ def record_history(lz, coders, name, rng, out, ncalls, prev=None):
             ain = remaining
         w = rng.random()
         inNull = w < 0.03; outNull = 0.03 <= w < 0.06; resv = 0.06 <= w < 0.08
+        if script is not None and k < len(script):
+            ain = min(remaining, pend + script[k]); act = 0; aout = cap - op; inNull = outNull = resv = False
         s.next_in = None if inNull else ib.addr + ip
         s.avail_in = ain
         s.next_out = None if outNull else ob.addr + op
@@ -183,14 +207,19 @@ def record_history(lz, coders, name, rng, out, ncalls, prev=None):
     s.reserved_int3 = 0
     return problems, c
 
-def validate_histories(ctx, nhist, ncalls):
+def record_all(ctx, nhist, ncalls):
+    """Runs in a child process (a crash of the library must become a violation, not the death of the check).
+    Returns (hists, problems): hists = [(label, events)], problems = [(label, text, events)]."""
     from harness.pydrv import lz, coders
     L = build.lib("asan")
     lz.load(L["so"])
-    from lib import tracev
-    hists = []
+    hists = []; problems = []
+    def note(label):
+        with open(os.path.join(ctx.workdir, "c11.current"), "w") as f:
+            f.write(label)
     for h in range(nhist):
         name = coders.ALL[h % len(coders.ALL)]
+        note(name)
         events = []
         probs, c = record_history(lz, coders, name, ctx.rng, events, ncalls)
         label = name
@@ -198,19 +227,75 @@ def validate_histories(ctx, nhist, ncalls):
         k = 0
         while ctx.rng.random() < 0.35 and k < 2:
             name2 = ctx.rng.choice(coders.ALL)
+            note(label + "+" + name2)
             p2, c = record_history(lz, coders, name2, ctx.rng, events, max(4, ncalls // 2), prev=c)
             probs += p2; label += "+" + name2; k += 1
         c.end()
         _release_extras(lz, c)
-        name = label
-        hists.append((name, events))
-        for p in probs:
-            ctx.violation("history:%s:%s" % (name, p.split(" (")[0]), p, dict(kind="history", coder=name, events=events))
+        hists.append((label, events))
+        problems += [(label, p, events) for p in probs]
+    # Every ordered pair of constructor kinds on one handle (decoder -> encoder, encoder -> decoder, ...): the second
+    # constructor must leave nothing of the first behind (function pointers of lzma_next_coder included)
+    names = list(coders.ALL)
+    for i in range(len(names) if ctx.quick else 3 * len(names)):
+        a = names[i % len(names)]; b = ctx.rng.choice([n for n in names if coders.kind(n) != coders.kind(a)])
+        note(a + "+" + b)
+        events = []
+        probs, c = record_history(lz, coders, a, ctx.rng, events, 3)
+        p2, c = record_history(lz, coders, b, ctx.rng, events, 3, prev=c)
+        c.end(); _release_extras(lz, c)
+        hists.append((a + "+" + b, events))
+        problems += [(a + "+" + b, p, events) for p in probs + p2]
+    # The file-info decoder seeks: input chunks that end around file_size - 8192 (the first position it asks for),
+    # around the start of the Index and around the ends of the Streams
+    data = coders.encode_xz(coders.rand_data(ctx.rng, 26000, "rand"), preset=0, block_size=5000) + bytes(8) + \
+           coders.encode_xz(coders.rand_data(ctx.rng, 9000, "rand"), preset=0, block_size=4000)
+    n = len(data)
+    firsts = sorted(set(x for x in [n - 8192 - d for d in range(0, 18)] + [n - 8192 + d for d in (1, 2, 5)] if 0 < x < n))
+    if ctx.quick:
+        firsts = [x for i, x in enumerate(firsts) if i % 2 == ctx.seed % 2 or n - 8192 - x in (0, 1, 4, 12, 13)]
+    for first in firsts:
+        label = "file_info_decoder@%d" % (n - 8192 - first)
+        note(label)
+        events = []
+        probs, c = record_history(lz, coders, "file_info_decoder", ctx.rng, events, 14, script=[first, 3, n],
+                                  sample_kw=dict(data=data))
+        c.end(); _release_extras(lz, c)
+        hists.append((label, events))
+        problems += [(label, p, events) for p in probs]
+    return hists, problems
+
+def validate_histories(ctx, nhist, ncalls):
+    from lib import tracev
+    import pickle
+    res = os.path.join(ctx.workdir, "c11.hists")
+    pid = os.fork()
+    if pid == 0:
+        try:
+            with open(res, "wb") as f:
+                pickle.dump(record_all(ctx, nhist, ncalls), f)
+            os._exit(0)
+        except BaseException:
+            import traceback; traceback.print_exc()
+            os._exit(7)
+    _, st = os.waitpid(pid, 0)
+    if st != 0:
+        cur = open(os.path.join(ctx.workdir, "c11.current")).read() if os.path.exists(os.path.join(ctx.workdir, "c11.current")) else "?"
+        if os.WIFSIGNALED(st) or os.WEXITSTATUS(st) not in (0, 7):
+            ctx.violation("crash:history:%s" % cur.split("@")[0],
+                          "the library crashed / a sanitizer aborted while a call history was recorded on %s (status %s)" % (cur, st),
+                          dict(kind="history", coder=cur))
+            return
+        raise MachineryError("recording call histories failed (see traceback above), at %s" % cur)
+    hists, problems = pickle.load(open(res, "rb"))
+    for label, p, events in problems:
+        ctx.violation("history:%s:%s" % (label, p.split(" (")[0]), p, dict(kind="history", coder=label, events=events))
+    for label, events in hists:
         ctx.case(key=("hist", json.dumps(events)))
     rej = tracev.validate(ctx, "TraceLzmaCode", hists,
-                          lambda label, e, i: "trace:%s:%s:%s" % (label, e.get("action"), e.get("ret")))
+                          lambda label, e, i: "trace:%s:%s:%s" % (label.split("@")[0], e.get("action", e.get("e")), e.get("ret", "getters")))
     ctx.sample(dict(kind="recorded_history", coder=hists[1][0], events=hists[1][1]))
-    ctx.log("validated %d recorded histories (%d events): rejected=%d" % (nhist, sum(len(e) for _, e in hists), rej))
+    ctx.log("validated %d recorded histories (%d events): rejected=%d" % (len(hists), sum(len(e) for _, e in hists), rej))
 
 def run(ctx):
     # (M)
